@@ -32,16 +32,16 @@ KernelsOf(op, f) ==
       [] op = "dekad"       -> {}
       [] OTHER              -> {}
 
-VARIABLES compiled, accepted
-hvars == <<compiled, accepted>>
-HInit == compiled = {} /\ accepted = {}
+VARIABLES compiled
+hvars == <<compiled>>
+HInit == compiled = {}
 Invoke(op, f) ==
     IF Expected(op, f) = "ok"
-    THEN compiled' = compiled \cup KernelsOf(op, f) /\ accepted' = accepted \cup {<<op, f>>}
+    THEN compiled' = compiled \cup KernelsOf(op, f)
     ELSE UNCHANGED hvars                       \* a rejected call compiles nothing
 
-\* invariants of any session
+\* invariants of any session (no history variable: the log of accepted calls would multiply the
+\* state space by 2^108 without adding behaviour)
 OnlyLazyKernels == compiled \subseteq LazyKernels
-CompiledIffUsed == compiled = UNION {KernelsOf(c[1], c[2]) : c \in accepted}
 Monotone == [][compiled \subseteq compiled']_hvars
 =============================================================================
